@@ -331,6 +331,33 @@ def check_twins(ck, fp, fs):
               % (len(cp), len([d for d in dp if d[0]]), ", ".join(sorted(set(d[0] for d in dp if d[0])))))
 
 
+from rules.parcommon import check_comp_threaded  # noqa: E402
+
+
+def check_signed_tests(ck, fn, tag):
+    """a local whose sign is tested (x < 0, x > 0 with both outcomes handled) must have a signed type in every instantiation"""
+    n = 0
+    for z in fn.nodes():
+        b = match.binop(z, ("<",)) if z["k"] == "BinaryOperator" else None
+        if not b or const_int(b[2]) != 0:
+            continue
+        d = ref_of(b[1])
+        if d is None:
+            continue
+        decl = [v for v in fn.nodes() if v["k"] == "VarDecl" and v.get("did") == d]
+        if not decl:
+            continue
+        n += 1
+        ty = (decl[0].get("ty") or "")
+        if "unsigned" in ty:
+            ck.violation("SIGN-TEST-SIGNED", fn.qname, "%s:%s" % (tag, decl[0].get("name")),
+                         "`%s < 0` decides a branch of the refinement, but in this instantiation `%s` has type %s: the difference wraps, the branch is dead "
+                         "and the other one runs with a huge value" % (decl[0].get("name"), decl[0].get("name"), ty), fn.nloc(z))
+        else:
+            ck.ok("SIGN-TEST-SIGNED", "%s %s" % (tag, decl[0].get("name")), "type %s" % ty)
+    return n
+
+
 def run(ck):
     ck.explanation = (
         "The numeric refinement (halving, skew correction, returned ranks) is not decidable statically. Decided necessary conditions: the two "
@@ -338,21 +365,32 @@ def run(ck):
         "queues have the right orientation and source; the edge scans keep maximum / minimum; the partition's refinement decision compares "
         "(element, sequence) pairs (found and fixed: it compared keys only, so runs of equal elements were split against the sequence order); every "
         "element access is dominated by an index < seqlen test; the two copies of the algorithm (partition / selection) agree on every decision "
-        "except three documented ones.")
+        "except three documented ones; every standard ordering algorithm called inside receives the caller's comparator (COMP-THREADED); locals whose "
+        "sign is tested are signed in every instantiation, including an unsigned rank type (SIGN-TEST-SIGNED).")
     types = ["int"] if ck.tier == "quick" else ["int", "std::string"]
     for t in types:
         tu = ir.extract("witness/C08_partition.cpp", defines=["WITNESS_T=" + t], extra_flags=["-include", "string"])
         check_lexi(ck, tu)
-        fp = tu.one(qname=PART)
-        fs = tu.one(qname=SEL)
-        for fn, tag, isp in ((fp, "partition", True), (fs, "selection", False)):
-            check_index_guards(ck, fn, tag)
-            check_pq_and_edges(ck, fn, tag, isp)
-        check_twins(ck, fp, fs)
+        fps, fss = tu.some(qname=PART), tu.some(qname=SEL)
+        ck.require(len(fps) == 2 and len(fss) == 2, "expected the signed/less and the unsigned/greater instantiation of both functions")
+
+        def rank_ty(fn, isp):
+            return fn.targs[1] if isp else fn.targs[2]
+        for fp in fps:
+            fs = [f for f in fss if rank_ty(f, False) == rank_ty(fp, True)][0]
+            suffix = "<%s>" % rank_ty(fp, True)
+            for fn, tag, isp in ((fp, "partition" + suffix, True), (fs, "selection" + suffix, False)):
+                check_index_guards(ck, fn, tag)
+                check_pq_and_edges(ck, fn, tag, isp)
+                check_comp_threaded(ck, fn, tag)
+                check_signed_tests(ck, fn, tag)
+            check_twins(ck, fp, fs)
     m = len(types)
     ck.floor("LEXI-TABLE", 4 * m)
-    ck.floor("INDEX-GUARD", 2 * m)
-    ck.floor("PQ-ORIENT", 2 * m)
-    ck.floor("EDGE-TIEBREAK", 2 * m)
-    ck.floor("MIDDLE-LEXI", 1 * m)
-    ck.floor("TWIN-AGREE", 1 * m)
+    ck.floor("INDEX-GUARD", 4 * m)
+    ck.floor("PQ-ORIENT", 4 * m)
+    ck.floor("EDGE-TIEBREAK", 4 * m)
+    ck.floor("MIDDLE-LEXI", 2 * m)
+    ck.floor("TWIN-AGREE", 2 * m)
+    ck.floor("COMP-THREADED", 4 * m)
+    ck.floor("SIGN-TEST-SIGNED", 2 * m)
